@@ -217,13 +217,6 @@ def run(ctx):
                     except Exception:
                         pass
                 walk(pre, {})
-                # _add_effect creates the forall variables with Variable(o, t), i.e. in the GLOBAL environment (the
-                # expression parser passes self._env): with a reader built for another environment every forall
-                # effect fails an environment assertion (finding C18-reader-forall-effect-environment, see notes).
-                # The generated problems live in their own environment, so it is made the global one for this call.
-                import unified_planning.environment as _uenv
-                saved = _uenv.GLOBAL_ENVIRONMENT
-                _uenv.GLOBAL_ENVIRONMENT = env
                 try:
                     reader._add_effect(q, act2, types_map, pre, dom)
                     parsed = list(act2.effects)
@@ -235,8 +228,6 @@ def run(ctx):
                     dist["rejected_by_unmodelled_checks"] = dist.get("rejected_by_unmodelled_checks", 0) + 1
                 except Exception:
                     dist["reader_raised"] += 1
-                finally:
-                    _uenv.GLOBAL_ENVIRONMENT = saved
             # variables: original forall variables and the re-read ones share the written name
             vnames = OrderedDict()
             for e in effs:
